@@ -130,6 +130,48 @@ fn stale_on_chain(ca: &str, kinds: &[usize; 5]) -> bool {
     here || parent(ca).map(|p| stale_on_chain(p, kinds)).unwrap_or(false)
 }
 
+fn policy_name(p: Policy) -> &'static str { p.as_str() }
+
+fn parse_policy(v: &Value) -> Option<Policy> {
+    match v.as_str()? { "reject" => Some(Policy::Reject), "warn" => Some(Policy::Warn), "accept" => Some(Policy::Accept), _ => None }
+}
+
+/// Builds a `Config` the way the binary does — a config file on disk,
+/// `Config::config_args(..).get_matches_from([.., "--config", FILE, ..])`,
+/// `Config::from_arg_matches` — with `stale` / `unsafe-vrps` given in the
+/// file and/or on the command line, and returns the policies the engine
+/// would be run with: (stale, unsafe_vrps).
+fn policies_through_config(
+    file: (Option<Policy>, Option<Policy>), cli: (Option<Policy>, Option<Policy>),
+) -> Result<(Policy, Policy), String> {
+    use routinator::config::{Config, FilterPolicy};
+    let dir = std::path::PathBuf::from(
+        std::env::var("VERIF_DIR").unwrap_or_else(|_| "/verif".into())
+    ).join(".scratch").join(format!("c06-conf-{}", std::process::id()));
+    std::fs::create_dir_all(&dir).map_err(|e| e.to_string())?;
+    let path = dir.join("routinator.conf");
+    let mut text = format!("repository-dir = \"{}\"\n", dir.join("cache").display());
+    if let Some(p) = file.0 { text.push_str(&format!("stale = \"{}\"\n", policy_name(p))) }
+    if let Some(p) = file.1 { text.push_str(&format!("unsafe-vrps = \"{}\"\n", policy_name(p))) }
+    std::fs::write(&path, text).map_err(|e| e.to_string())?;
+    let mut args: Vec<String> = vec!["routinator".into(), "--config".into(), path.display().to_string()];
+    if let Some(p) = cli.0 { args.push("--stale".into()); args.push(policy_name(p).into()) }
+    if let Some(p) = cli.1 { args.push("--unsafe-vrps".into()); args.push(policy_name(p).into()) }
+    let matches = Config::config_args(clap::Command::new("routinator"))
+        .try_get_matches_from(&args).map_err(|e| e.to_string());
+    let res = matches.and_then(|m| {
+        Config::from_arg_matches(&m, &dir).map_err(|_| "from_arg_matches failed".to_string())
+    });
+    let _ = std::fs::remove_dir_all(&dir);
+    let config = res?;
+    let conv = |p: FilterPolicy| match p {
+        FilterPolicy::Reject => Policy::Reject,
+        FilterPolicy::Warn => Policy::Warn,
+        FilterPolicy::Accept => Policy::Accept,
+    };
+    Ok((conv(config.stale), conv(config.unsafe_vrps)))
+}
+
 fn oracle(ctx: &mut Ctx, input: &Value, scn: &Scenario, played: &Played) {
     let expect = &input["expect"];
     for (r, run) in scn.runs.iter().enumerate() {
@@ -143,7 +185,13 @@ fn oracle(ctx: &mut Ctx, input: &Value, scn: &Scenario, played: &Played) {
         }
         if r + 1 != scn.runs.len() { continue }
         let served: BTreeSet<String> = ob.out.payload().into_iter().collect();
-        let policy = scn.opts.stale;
+        // Judge against the policy the USER configured (case description),
+        // not against whatever ended up in the `Config`.
+        let policy = match input.get("glue") {
+            Some(glue) => parse_policy(&glue["cli_stale"]).or(parse_policy(&glue["file_stale"]))
+                .unwrap_or(Policy::Reject),
+            None => scn.opts.stale,
+        };
         match expect["kind"].as_str() {
             Some("stale") => {
                 let kinds: [usize; 5] = serde_json::from_value(expect["kinds"].clone()).unwrap();
@@ -212,6 +260,33 @@ fn run_input(ctx: &mut Ctx, player: &mut Player, input: &Value) {
             return
         }
     };
+    let mut scn = scn;
+    if let Some(glue) = input.get("glue") {
+        let file = (parse_policy(&glue["file_stale"]), parse_policy(&glue["file_unsafe"]));
+        let cli = (parse_policy(&glue["cli_stale"]), parse_policy(&glue["cli_unsafe"]));
+        match policies_through_config(file, cli) {
+            Ok((stale, unsafe_vrps)) => {
+                scn.opts.stale = stale;
+                // The user's unsafe-vrps setting must arrive as configured.
+                let wanted = cli.1.or(file.1).unwrap_or(Policy::Accept);
+                if unsafe_vrps != wanted {
+                    ctx.oracle_fail(
+                        "unsafe-vrps-policy-lost",
+                        &format!(
+                            "unsafe-vrps configured as {} (file {:?}, command line {:?}) but the \
+                             engine would run with {}", wanted.as_str(), file.1, cli.1, unsafe_vrps.as_str()
+                        ),
+                        input, json!(null)
+                    );
+                }
+                ctx.count(&format!("glue:stale={}", stale.as_str()));
+            }
+            Err(err) => {
+                ctx.oracle_fail("config-rejected", &err, input, json!(null));
+                return
+            }
+        }
+    }
     let played = play_case(player, &scn, 0);
     count_run_stats(ctx, &played);
     oracle(ctx, input, &scn, &played);
@@ -305,6 +380,38 @@ fn generate(ctx: &mut Ctx) -> Vec<Value> {
         };
         cases.push(json!({ "scenario": to_json(&scn), "expect": {"kind": "boundary"} }));
     }
+    // Configuration glue: the policy reaches the engine through a config file and/or the
+    // command line (`Config::config_args` + `from_arg_matches`), one stale CA ("a", stale
+    // manifest; its child a1 hangs below it), fetch path and stored path.
+    let name = |p: Option<Policy>| p.map(|p| json!(p.as_str())).unwrap_or(Value::Null);
+    let all = [None, Some(Policy::Reject), Some(Policy::Warn), Some(Policy::Accept)];
+    for file in all {
+        for cli in all {
+            // (a) file only, (b) command line only, (d) neither: all; (c) both: differing pairs.
+            if file.is_some() && cli.is_some() && file == cli { continue }
+            let kinds = stale_kinds(0b00010, false);
+            for stored in [false, true] {
+                ctx.nontrivial(format!("glue file={file:?} cli={cli:?} stored={stored}"));
+                let runs = if stored {
+                    vec![
+                        spec_run(T0 - HOUR, serve(&world, &kinds), None),
+                        spec_run(T0, serve(&world, &kinds), None),
+                    ]
+                } else {
+                    vec![spec_run(T0, serve(&world, &kinds), None)]
+                };
+                let scn = Scenario { world: world.clone(), opts: EngineOpts::default(), runs };
+                cases.push(json!({
+                    "scenario": to_json(&scn), "expect": {"kind": "stale", "kinds": kinds},
+                    "glue": {
+                        "file_stale": name(file), "cli_stale": name(cli),
+                        "file_unsafe": if stored { json!("warn") } else { Value::Null },
+                        "cli_unsafe": if file.is_none() && !stored { json!("reject") } else { Value::Null },
+                    },
+                }));
+            }
+        }
+    }
     cases
 }
 
@@ -315,7 +422,11 @@ pub fn run_c06(ctx: &mut Ctx) {
         now via the same-manifest shortcut or without collector; quick: subsets of size <= 1, the \
         full set and a sample, thorough: all); premature manifests (thisUpdate = now + 1) with and \
         without a stored version; boundaries nextUpdate = now / thisUpdate = now. Non-trivial = \
-        distinct (path, policy, subset)".into();
+        distinct (path, policy, subset). Configuration glue: stale (and unsafe-vrps) given in a \
+        config file on disk and/or on the command line, turned into a Config by \
+        Config::config_args + from_arg_matches (file only, command line only, both with the \
+        command line winning, neither) on the one-stale-CA tree, fetch and stored path; judged \
+        against the policy the user configured".into();
     let mut player = Player::new();
     let inputs = match ctx.replay_inputs() {
         Some(inputs) => inputs,
